@@ -72,7 +72,7 @@ def plan(tier, seed):
             # class, cACGMM / vMF-cACGMM with frame-wise priors and 16..36 observations), so the heaviest blur
             # sampled is 0.3 (true class >= 0.7). See DESIGN.md section 7, C03.
             blur = float(pick([0.0, 0.1, 0.2, 0.3]))
-            if o.get('covariance_type') == 'full':
+            if kind in ('gmm', 'gcacgmm') and o.get('covariance_type', 'full' if kind == 'gmm' else 'spherical') == 'full':     # not passed = library default
                 # full covariances fitted to dim+2 points per class are nearly singular (likelihood unbounded in the
                 # degenerate directions): EM itself was seen to flip single observations there; sample larger classes
                 # (observed on the unchanged tree and confirmed with scipy.stats: with 30 points per class in D = 8 and blur 0.1
@@ -89,7 +89,7 @@ def plan(tier, seed):
             iters = 20 if (tier == 'thorough' or r % 3 == 0) else int(pick([3, 5, 10]))
             if kind == 'cbmm':
                 iters = int(pick([2, 3, 5]))
-            cases.append(dict(kind=kind, K=K, D=D, E=E, N=N, lead=lead, blur=blur, pert=float(10 ** rng.uniform(-9 if kind != 'cbmm' else -4, -2)),   # cBMM: a (nearly) rank-one class scatter makes its trainer raise by design (assert / least_squares)
+            cases.append(dict(kind=kind, K=K, D=D, E=E, N=N, lead=lead, blur=blur, init_dtype=pick(['float', 'float', 'bool', 'int']), pert=float(10 ** rng.uniform(-9 if kind != 'cbmm' else -4, -2)),   # cBMM: a (nearly) rank-one class scatter makes its trainer raise by design (assert / least_squares)
                              
                               iters=iters, opts=o, rs=[seed, 3, i]))
             i += 1
@@ -152,6 +152,9 @@ def build(case):
     b = case['blur']
     noise = gen.dirichlet_init(rng, lead, K, N, alpha=1.0)
     s.init = (1 - b) * onehot + b * noise
+    if b == 0 and case.get('init_dtype', 'float') != 'float':
+        # the exact partition as label code hands it over (labels_to_one_hot returns a boolean array by default)
+        s.init = onehot.astype(bool if case['init_dtype'] == 'bool' else np.int64)
     s.num_classes = None
     s.np_seed = None
     return s, lab, truth
